@@ -117,7 +117,7 @@ Proof. exact no_stale_reservation_after_block. Qed.
 Theorem C14_I3_unspent_always_spendable : forall g ops s t,
   run (init g) ops = Ok s ->
   tx_validate (ledger s) t = true -> t_type t <> TGoldenTicket -> producer_only t = false ->
-  foreign_stake t = false ->
+  late_issuance (ledger s) t = false -> foreign_stake t = false ->
   has_tx (t_id t) (txs (pl s)) = false ->
   (forall k u, In k (vkeys t) -> In u (txs (pl s)) -> ~ In k (in_keys u)) ->
   exists p', add_transaction_if_validates (ledger s) (pl s) t = Ok p' /\ In t (txs p').
@@ -224,6 +224,11 @@ Theorem C14_foreign_stake_refused : forall c p t,
   t_type t = TBlockStake -> t_own t = false -> add_transaction_if_validates c p t = Ok p.
 Proof. exact foreign_stake_refused. Qed.
 
+(* an issuance transaction is never pooled on a running chain (716c212) *)
+Theorem C14_late_issuance_refused : forall c p t,
+  t_type t = TIssuance -> c_latest c <> 0 -> add_transaction_if_validates c p t = Ok p.
+Proof. exact late_issuance_refused. Qed.
+
 (* ---------------- totality ---------------- *)
 
 (* no operation sequence panics or errs, provided GoldenTicket-typed transactions go to
@@ -302,6 +307,7 @@ Print Assumptions C14_I4_create_succeeds.
 Print Assumptions C14_I4_failed_create_restores_pool.
 Print Assumptions C14_I4_failed_create_witness.
 Print Assumptions C14_foreign_stake_refused.
+Print Assumptions C14_late_issuance_refused.
 Print Assumptions C14_no_panic.
 Print Assumptions C14_panic_only_gt.
 Print Assumptions C14_panic_reachable.
